@@ -247,7 +247,11 @@ def jobs(tier):
                 add("merge", 3, 2, 12, fl="agen", ffl="adef", b0=b0, b1=False, yonly=yr)
             add("merge", 3, 1, 9, fl="agen", ffl="adef", b0=b0, b1=True)
         for step in (1, 2, 3):
-            add("islice", 1, 3, 8, fl="agen", ffl="def", form=3, PR=3, p2=step, b0=False, b1=False, b2=False, ysplit=True)
+            add("islice", 1, 1, 4, fl="agen", ffl="def", form=3, PR=3, p2=step, b0=False, b1=False, b2=False, yonly=(0, 3))
+            add("islice", 1, 1, 4, fl="agen", ffl="def", form=3, PR=3, p2=step, b0=False, b1=False, b2=False, yonly=(4, 6))
+            for start in range(4):  # three items: also pinned by start and split by exception kind
+                for yr in ((0, 2), (3, 6)):
+                    add("islice", 1, 3, 8, fl="agen", ffl="def", form=3, PR=3, p0=start, p2=step, b0=False, b1=False, b2=False, yonly=yr)
     return J
 
 
